@@ -321,8 +321,12 @@ def correspond(pid, spec, tier, seed):
             if a2 != m2:
                 stats["disagreements"].append({"profile": prof, "index": i, "case": c, "impl": a, "model": m, "tag": tag})
             if i < len(expect) and expect[i].startswith("!"):
-                stats["oracle_failures"].append({"profile": prof, "index": i, "case": c, "impl": a, "model": m, "tag": tag,
-                                                 "oracle": expect[i][1:]})
+                # `!Cxx|message`: an oracle of another property evaluated on the same run
+                msg = expect[i][1:]
+                mm = re.match(r"(C\d+)\|(.*)", msg)
+                if not mm or mm.group(1) == pid:
+                    stats["oracle_failures"].append({"profile": prof, "index": i, "case": c, "impl": a, "model": m, "tag": tag,
+                                                     "oracle": mm.group(2) if mm else msg})
             elif i < len(expect) and expect[i] not in ("-", "") and expect[i] != a:
                 stats["oracle_failures"].append({"profile": prof, "index": i, "case": c, "impl": a, "model": m, "tag": tag,
                                                  "oracle": "implementation output differs from what the generator intended: " + decode_line(expect[i], 3000)})
